@@ -275,7 +275,10 @@ def _stage(rep: Report, prop: str, name: str, consts: dict, limit, expect_reject
         need = ["graph", "dev", "load", "no_grid_meter_and_two_mixed_meters_with_device_chains"]
     else:
         need = ["graph", "with_grid_meter", "without_grid_meter", "chp_without_dedicated_meter", "chp_with_dedicated_meter",
-                "load", "nested", "dedicated_meter", "grid_meter_over_one_device_type", "grid_meter_as_chp_meter"]
+                "load", "nested", "dedicated_meter"]
+        if consts["MinN"] <= 3:
+            # these shapes need the small graphs, which a sampled shard of large graphs may not contain
+            need += ["grid_meter_over_one_device_type", "grid_meter_as_chp_meter"]
         if consts["MaxN"] >= 5:
             need.append("dev")
     for k in need:
